@@ -65,6 +65,21 @@ def traces():
                 out.append(T("unlisted-slide-%s-%d-%d" % (deck, k, len(pre) + (1 if pre and pre[0].get("op") == "observe" else 0)),
                              [{"deck": deck, "xform": [{"kind": "unlist_slide", "k": k}]}],
                              pre + [{"op": "observe"}, ck, {"op": "add_slide", "layout": 0}, ck, {"op": "add_slide", "layout": 0}, ck, {"op": "restart"}, {"op": "observe"}, ck]))
+    # click actions (URL and slide jump, on shapes and on runs) whose relationships a hover action refers to as well: changed, cleared
+    evs = [{"op": "add_slide", "layout": 6}, {"op": "add_slide", "layout": 6}, dict(box, op="add_textbox", slide=0, text="one\ntwo"), dict(box, op="add_shape", slide=0, type=1),
+           dict(box, op="add_shape", slide=0, type=1),
+           {"op": "run_hyperlink", "slide": 0, "shape": 0, "para": 0, "run": 0, "addr": U}, {"op": "run_hyperlink", "slide": 0, "shape": 0, "para": 1, "run": 0, "addr": U + "x"},
+           {"op": "click_hyperlink", "slide": 0, "shape": 1, "addr": U + "y"}, {"op": "click_target", "slide": 0, "shape": 2, "target": 1}, ck,
+           {"op": "restart", "xform": [{"kind": "rewrite_slides", "how": "hover_links"}]},
+           {"op": "run_hyperlink", "slide": 0, "shape": 0, "para": 0, "run": 0, "addr": None}, ck, {"op": "run_hyperlink", "slide": 0, "shape": 0, "para": 1, "run": 0, "addr": U + "z"}, ck,
+           {"op": "click_hyperlink", "slide": 0, "shape": 1, "addr": None}, ck, {"op": "click_target", "slide": 0, "shape": 2, "target": None}, ck,
+           dict(box, op="add_picture", slide=0, img=img_, src={"via": "stream", "pos": 0}, size="none"), ck, {"op": "restart"}]
+    out.append(T("hover-actions-share-the-relationship", [{"deck": "default"}], evs))
+    # an image that only an unused layout (or the master) holds: new image, layouts removed, another new image, the held image added again
+    pic = lambda seed, existing=None: dict(box, op="add_picture", slide=0, img=dict(img_, seed=seed), src={"via": "stream", "pos": 0}, size="none", existing=existing)  # noqa: E731
+    for deck in ("f-lyt-shapes.pptx", "f-mst-shapes.pptx", "f-mst-placeholders.pptx"):
+        evs = [{"op": "add_slide", "layout": 0}, pic(21)] + [{"op": "remove_layout", "layout": k} for k in (0, 1, 2, 0, 1, 0)] + [pic(22), pic(0, 0), pic(0, 1), ck, {"op": "restart"}, pic(23), pic(0, 0), ck]
+        out.append(T("image-held-by-a-layout-%s" % deck, [{"deck": deck}], evs))
     # non-contiguous / out-of-order slide part names, then additions (next slide partname must not collide)
     for deck in ("f-sld-slides.pptx", "t-test_slides.pptx", "f-prs-add-slide.pptx", "f-shp-shapes.pptx"):
         for mode in ("reverse", "rotate", "gaps", "shuffle", "lastfits", "firstbig", "midnext", "midnext2"):
